@@ -390,6 +390,7 @@ fn reexecution(report: &Report, max_arms: u32) {
                     report.violation("C06|reexec|well-formed-program-rejected", i, cmp::witness(&textp, &lists[0], &[]), "does not parse".into());
                     return;
                 };
+                let mut prev: Option<&V> = None;
                 for d in &lists {
                     report.eval();
                     let expected = refl::run(&prog, d);
@@ -398,9 +399,17 @@ fn reexecution(report: &Report, max_arms: u32) {
                         Ok(Err(e)) => cfgs::Outcome::RenderErr(e),
                         Err(pi) => cfgs::Outcome::Panic(pi.describe()),
                     };
-                    if cmp::check(report, "C06", "reexec-in-loop", i, || cmp::witness(&textp, d, &[]), &expected, &actual) {
+                    // the template object has been rendered with `prev` before: record the two-step history
+                    let w = || {
+                        let mut j = cmp::witness(&textp, d, &[]);
+                        j["kind"] = json!("reexec");
+                        j["history"] = json!(prev.iter().map(|p| p.to_json()).chain(std::iter::once(d.to_json())).collect::<Vec<_>>());
+                        j
+                    };
+                    if cmp::check(report, "C06", "reexec-in-loop", i, w, &expected, &actual) {
                         compared.fetch_add(1, Ordering::Relaxed);
                     }
+                    prev = Some(d);
                 }
             } else {
                 let expected: Vec<_> = targets.iter().map(|d| refl::run(&prog, d)).collect();
